@@ -159,7 +159,9 @@ func (g *docGen) noteNumber(s string) {
 	}
 }
 
-var keyPool = []string{`a`, `A`, `b`, `B`, `key`, `Key`, `KEY`, ``, `0`, `1`, `a b`, `é`, `É`, `name`, `value`, `日本`, `😀`, `ß`, `SS`, `ı`, `I`, `i`, `İ`, `x.y`, `__proto__`, `null`, `extra`}
+var keyPool = []string{`a`, `A`, `b`, `B`, `key`, `Key`, `KEY`, ``, `0`, `1`, `a b`, `é`, `É`, `name`, `value`, `日本`, `😀`, `ß`, `SS`, `ı`, `I`, `i`, `İ`, `x.y`, `__proto__`, `null`, `extra`,
+	// the reserved default key and its look-alikes (an object keeps its default under exactly "__default__"; anything else is an ordinary key)
+	`__default__`, `__Default__`, `__DEFAULT__`, `__default`, `default`, `_default_`, `__default__ `, `__defaulT__`}
 
 // swapCase flips the case of every cased rune (ASCII and beyond), to make keys that differ only in case.
 func swapCase(s string) string {
